@@ -113,6 +113,21 @@ for pid in ("C15", "C16"):
     fault(pid, "init-skeleton", [], ["init"], "config:create", "interrupted init left a .goit without HEAD")
     fault(pid, "init-head", [], ["init"], "HEAD:write", "interrupted init left an empty HEAD")
 fault("C16", "commit-branch-read-error-drops-parent", STAGED, ["commit", "-m", "second"], "branch:readfile#3", "any error reading the branch file was taken for 'first commit'")
+fault("C15", "first-commit-log-directories", INIT + [w("a.txt", "one\n"), g("add", "a.txt")], ["commit", "-m", "first"], "logs:mkdir#3", "a kill between mkdir(logs/refs) and mkdir(logs/refs/heads) made every later commit fail")
+scen("C20", "config", "value-with-line-break-and-key-with-equals", [g("init"), g("config", "user.name", "Ann"), g("config", "user.email", "ann@example.com"), g("config", "user.editor", "two\nlines"),
+     g("config", "user.email=old", "v"), g("config", "user. name", "X"), g("config", "core.x", "1"), w("c.txt", "1"), g("add", "c.txt"), g("commit", "-m", "c")],
+     "a value with a line break made the config unloadable; a key with '=' replaced another key")
+scen("C10", "branch", "rev-parse-branch-named-head", INIT + [w("a", "1"), g("add", "a"), g("commit", "-m", "c1"), g("branch", "head"), g("branch", "Head"), w("a", "2"), g("add", "a"), g("commit", "-m", "c2"),
+     g("rev-parse", "head", "Head", "HEAD")],
+     "rev-parse lower-cased its argument: for a branch named head it printed the commit of the current branch")
+scen("C03", "hostile", "branch-name-with-control-character", INIT + [w("a", "1"), g("add", "a"), g("commit", "-m", "c"), g("switch", "-c", "\nfoo", note="hostile"), g("status"),
+     g("branch", "-r", "a\nb", note="hostile"), g("branch", "x\x01", note="hostile"), g("status")],
+     "switch -c with a name that starts with a line break wrote a HEAD that no command could load any more")
+scen("C14", "log", "odd-ignore-file-does-not-stop-log", INIT + [w("h.txt", "1"), g("add", "h.txt"), g("commit", "-m", "one"), w(".goitignore", "build/\n*." + "x" * 70000 + "\n"), g("log"),
+     rm(".goitignore"), w(".goitignore/inner", "x"), g("log"), g("log", "-n", "1")],
+     "a .goitignore with a line over 64 KiB, or a directory of that name, made log (and every command) fail")
+scen("C17", "ignore", "line-break-in-name-with-ignored-extension", INIT + [w(".goitignore", "*.log\nbuild/\n"), w("a\nb.log", "1"), w("sub/c\nd.log", "2"), w("k", "3"), g("add", "."), g("add", "sub"), g("add", "a\nb.log")],
+     "a file name with a line break was not covered by a '*.ext' entry")
 print("fault pins written")
 
 scen("C18", "robust", "branch-name-with-colon-space", INIT + [w("a", "1"), g("add", "a"), g("commit", "-m", "c1"), g("switch", "-c", "a: b"),
